@@ -1,4 +1,28 @@
 import ZCV.Model.Matcher
 namespace ZCV.Props.C14
 open ZCV ZCV.Cfg
+
+/-- a specifier without `=` is refused when it is added -/
+theorem C14_no_equals_refused (spec : Str) (h : spec.contains '=' = false) :
+    ∃ e, addOption spec = .error (.cfg e) ∧ e.kind = .syntax := by
+  unfold addOption
+  simp only [h, Bool.not_false, ↓reduceIte]
+  exact ⟨_, rfl, rfl⟩
+
+/-- a specifier with an empty path component is refused when it is added -/
+theorem C14_empty_component_refused (spec : Str) (h : spec.contains '=' = true)
+    (he : (addOption.splitOn (spec.takeWhile (· != '=')) '/').contains [] = true) :
+    ∃ e, addOption spec = .error (.cfg e) ∧ e.kind = .syntax := by
+  unfold addOption
+  simp only [h, Bool.not_true, Bool.false_eq_true, ↓reduceIte, he]
+  exact ⟨_, rfl, rfl⟩
+
+/-- every other specifier is accepted, with the value taken verbatim after the first `=` -/
+theorem C14_wellformed_accepted (spec : Str) (h : spec.contains '=' = true)
+    (he : (addOption.splitOn (spec.takeWhile (· != '=')) '/').contains [] = false) :
+    addOption spec = .ok { path := addOption.splitOn (spec.takeWhile (· != '=')) '/',
+                           val := (spec.dropWhile (· != '=')).drop 1 } := by
+  unfold addOption
+  simp only [h, Bool.not_true, Bool.false_eq_true, ↓reduceIte, he]
+
 end ZCV.Props.C14
